@@ -29,8 +29,16 @@ Theorem C01_decode_total : forall v L P K, wf_for v L P K -> forall id,
   decode P id = Ok (match History.key_of_id K (lk P) id with Some k => k | None => [] end).
 Proof. exact decode_total_thm. Qed.
 
+(* headline: for EVERY valid key list, every variant, both requested modes, every permutation table *)
+Theorem C01_for_all_valid_K : forall v tbl K req, valid_keys K = true -> small_keys K -> perm_okb tbl = true ->
+  exists P, build v tbl K req = Ok P /\
+  id_assignment K (lk P) /\ t_num_keys P = lenN K /\
+  (forall k i, lk P k = Some i -> decode P i = Ok k) /\ (forall i, lenN K <= i -> decode P i = Ok []).
+Proof. exact headline_ids. Qed.
+
 Example C01_nonvacuous : forall v, exists L P, ex_logical v = Ok L /\ wf_for v L P ex_keys.
 Proof. exact ex_wf_for. Qed.
 
 Print Assumptions C01_construction_succeeds.
 Print Assumptions C01_ids_bijection. Print Assumptions C01_decode_inverts_lookup. Print Assumptions C01_decode_total.
+Print Assumptions C01_for_all_valid_K.
